@@ -1,0 +1,38 @@
+//go:build verif
+// +build verif
+
+package ge25519
+
+import "github.com/oasisprotocol/ed25519/internal/curve25519"
+
+// Verification exports.  Compiled only with the `verif` build tag.
+
+func (r *Ge25519) T() *curve25519.Bignum25519 { return &r.t }
+
+// VerifNiels mirrors ge25519niels for harnesses.
+type VerifNiels struct {
+	YsubX, XaddY, T2d curve25519.Bignum25519
+}
+
+// VerifChooseNiels calls the backend's constant-time table selector.
+func VerifChooseNiels(out *VerifNiels, table *[256][96]byte, pos int, b int8) {
+	var t ge25519niels
+	scalarmultBaseChooseNiels(&t, table, pos, b)
+	out.YsubX, out.XaddY, out.T2d = t.ysubx, t.xaddy, t.t2d
+}
+
+// VerifMoveConditionalBytes calls the backend's conditional move.
+func VerifMoveConditionalBytes(out, in *[96]byte, flag uint64) {
+	moveConditionalBytes(out, in, flag)
+}
+
+// VerifNielsSlidingMultiple returns entry i of the sliding-window table for B.
+func VerifNielsSlidingMultiple(i int) VerifNiels {
+	e := &nielsSlidingMultiples[i]
+	return VerifNiels{YsubX: e.ysubx, XaddY: e.xaddy, T2d: e.t2d}
+}
+
+// VerifConstants returns d, 2d and sqrt(-1) as stored in the tables.
+func VerifConstants() (d, d2, sqrtm1 curve25519.Bignum25519) {
+	return ecd, ec2d, sqrtNeg1
+}
